@@ -279,12 +279,12 @@ def split_out(o):
 
 def parse_T_result(rt):
     """q ... t ... acc x fit x l ..."""
-    out = {"q": [], "t": [], "l": [], "var": [], "acc": None, "fit": None}
+    out = {"q": [], "t": [], "l": [], "var": [], "mat": [], "cls": [], "slots": [], "acc": None, "fit": None}
     cur = None
     i = 0
     while i < len(rt):
         w = rt[i]
-        if w in ("q", "t", "l", "var"):
+        if w in ("q", "t", "l", "var", "mat", "cls", "slots"):
             cur = w
         elif w in ("acc", "fit"):
             out[w] = rt[i + 1]
@@ -312,6 +312,77 @@ def check_tag(c, s, where):
     elif not (0.0 <= conf <= 1.0):
         return "confidence %r outside [0,1] %s" % (conf, where)
     return None
+
+
+def dyn_rule(rows, classes):
+    """the documented slot -> class rule: class with the largest count in the
+    slot, ties to the higher class; a slot without examples inherits the class
+    of its left neighbour (after that one's own fix-up), else of a known right
+    neighbour, else class 0"""
+    unknown = classes
+    raw = []
+    for r in rows:
+        best = 0
+        for j in range(1, classes):
+            if r[j] >= r[best]:
+                best = j
+        raw.append(best if r[best] else unknown)
+    out = list(raw)
+    for i in range(len(out)):
+        if out[i] == unknown:
+            if i and out[i - 1] != unknown:
+                out[i] = out[i - 1]
+            elif i + 1 < len(out) and out[i + 1] != unknown:
+                out[i] = out[i + 1]
+            else:
+                out[i] = 0
+    return out
+
+
+def oracle_dyn_tables(c, R, combo):
+    """dyn_slot (individual): the tables and answers follow the documented
+    rule from the training data.  Independent of the Coq model."""
+    bad = []
+    ntr, nq = len(c["train"]), len(c["query"])
+    try:
+        ns, ncl = int(R["mat"][0]), int(R["mat"][1])
+        cells = [int(x) for x in R["mat"][2:]]
+        rows = [cells[i * ncl:(i + 1) * ncl] for i in range(ns)]
+        cls = [int(x) for x in R["cls"]]
+        slots = [int(x) for x in R["slots"]]
+    except ValueError:
+        return [("harness:protocol", "table dump malformed")]
+    if ns != c["classes"] * c["xslot"] or ncl != c["classes"] or len(cells) != ns * ncl or len(cls) != ns \
+            or len(slots) != nq + ntr:
+        return [("dyn_slot:table-shape", "matrix %dx%d / %d slot classes for %d classes x %d slots"
+                 % (ns, ncl, len(cls), c["classes"], c["xslot"]))]
+    if any(not (0 <= s < ns) for s in slots):
+        bad.append(("dyn_slot:slot-out-of-range", "slot() returned %s with %d slots" % (slots, ns)))
+        return bad
+    # fill rule: one count per training example at (slot, label)
+    want = [[0] * ncl for _ in range(ns)]
+    for i, (lab, _) in enumerate(c["train"]):
+        want[slots[nq + i]][int(lab[2:])] += 1
+    if want != rows:
+        bad.append(("dyn_slot:matrix-is-not-the-count-table",
+                    "slot matrix %s, counting the training examples by (slot, label) gives %s" % (rows, want)))
+    rule = dyn_rule(rows, ncl)
+    if rule != cls:
+        k = next(i for i in range(ns) if rule[i] != cls[i])
+        bad.append(("dyn_slot:slot-class-rule",
+                    "slot %d with counts %s (neighbours: %s) is assigned class %d; the documented rule (arg-max, ties to the "
+                    "higher class, unknown slots inherit a neighbour) gives %d" % (k, rows[k], rows, cls[k], rule[k])))
+    # answers: label = class of the slot, confidence = share of that class in the slot (0.5 when empty)
+    preds = R["q"] + R["t"]
+    for j, (p, s) in enumerate(zip(preds, slots)):
+        lab, conf = tag_of(p)
+        tot = sum(rows[s])
+        wc = 0.5 if tot == 0 else rows[s][cls[s]] / tot
+        if lab != cls[s] or canon(conf) != canon(wc):
+            bad.append(("dyn_slot:answer-is-not-the-slot-class",
+                        "row %d falls in slot %d (class %d, counts %s) but the answer is %s" % (j, s, cls[s], rows[s], p)))
+            break
+    return bad
 
 
 def oracle_T(c, otoks, rt):
@@ -376,6 +447,8 @@ def oracle_T(c, otoks, rt):
             if R["fit"] != canon(want):
                 bad.append(("evaluator:%s:scores-another-function" % combo,
                             "evaluator fitness %s, the model's own tags on the training set give %s" % (R["fit"], canon(want))))
+    if R["mat"]:
+        bad += oracle_dyn_tables(c, R, combo)
     for h in R["var"]:
         v = unhx(h)
         if not (v != v or v >= 0.0):
